@@ -281,6 +281,10 @@ class KernelSim(WorldBase):
                                         "ncu": g.choice(THRESHOLDS), "mask": g.getrandbits(48), "end": "normal"}])
             evs.append(["session", {"role": "consume", "flow": flow, "prefix": "c", "reg": creg,
                                     "ncu": g.choice(THRESHOLDS), "mask": 0, "end": "normal", "premature_end": True}])
+            if g.random() < 0.5:
+                # the consumer asks for its in-memory traces only after a first pass of the kernel
+                evs.append(["session", {"role": "consume", "flow": flow, "prefix": "c", "reg": creg, "warmup": True,
+                                        "ncu": g.choice(THRESHOLDS), "mask": g.getrandbits(48), "end": "normal"}])
             if g.random() < 0.4:
                 # the program updates an operand in place (an element somewhere in the middle) and measures again
                 out_, ops_ = K.case_spec(case)
